@@ -7,6 +7,7 @@ import (
 	"io"
 	"net"
 	"net/http"
+	"net/url"
 	"os"
 	"reflect"
 	"sort"
@@ -375,6 +376,30 @@ func (h *SimH) do(q *Req, c flamego.Context, rw http.ResponseWriter, r *http.Req
 		if rw != nil {
 			attempt()
 			_, _ = io.Copy(rw, struct{ io.Reader }{strings.NewReader(string(h.body(q, int(a.A))))})
+		}
+	case OpNestedServe:
+		if c != nil && q.Sub != nil && h.w.Setup.NestedRoute && !q.substituted {
+			m := "POST"
+			if r != nil && r.Method == "POST" {
+				m = "GET"
+			}
+			sub := (&http.Request{Method: m, URL: &url.URL{Path: "/__nested"}, Header: http.Header{"X-Req": {q.Sub.Name}},
+				Proto: "HTTP/1.1", ProtoMajor: 1, ProtoMinor: 1, Host: "sim", RequestURI: "/__nested", Body: http.NoBody}).WithContext(gocontext.Background())
+			attempt()
+			q.Note("nested-serve(")
+			l := sched.CurrentLocal()
+			if l != nil {
+				l.Ref = q.Sub
+			}
+			func() {
+				defer func() {
+					if l != nil {
+						l.Ref = q
+					}
+					q.Note(")nested-serve")
+				}()
+				h.w.F.ServeHTTP(c.ResponseWriter(), sub)
+			}()
 		}
 	case OpSetCT:
 		if rw != nil {
